@@ -50,7 +50,8 @@ func genStartup(rng *rand.Rand, depth int) vkit.SchedSpec {
 		s := vkit.SchedSpec{Kind: "composite"}
 		n := 2 + rng.Intn(2)
 		for i := 0; i < n; i++ {
-			if i > 0 && rng.Intn(2) == 0 {
+			// pauses between the parts, and before the first one
+			if rng.Intn(2) == 0 {
 				s.Parts = append(s.Parts, vkit.SchedSpec{Kind: "const", A: 0, DurMs: 30 + rng.Intn(200)})
 			}
 			s.Parts = append(s.Parts, genStartup(rng, depth+1))
@@ -189,6 +190,7 @@ func runCase(res *vkit.Result, c Case) {
 		NewRPSSchedule: newSched, StartupSchedule: startup, DiscardOverflow: false,
 	}}})
 	done := make(chan error, 1)
+	runStart := time.Now()
 	go func() { done <- eng.Run(ctx) }()
 	if c.Scenario == "cancel" {
 		go func() {
@@ -248,6 +250,20 @@ func runCase(res *vkit.Result, c Case) {
 	for k := 0; k < len(bindTimes) && k < len(tok); k++ {
 		if bindTimes[k].Before(tok[k]) {
 			fail("too-early", "instance #%d was created %v before the startup profile released its token", k, tok[k].Sub(bindTimes[k]))
+			break
+		}
+	}
+	// the profile starts no earlier than the run: neither a token nor an instance may come before
+	// the run's start plus the documented offset (a lower bound — timers never fire early)
+	for k := range tok {
+		if lb := runStart.Add(modelOffs[k]); tok[k].Before(lb) {
+			fail("profile-anchor", "startup token %d is dated %v, before the start of the run (%v) plus its documented offset %v", k, tok[k].Format("2006-01-02 15:04:05.000000"), runStart.Format("15:04:05.000000"), modelOffs[k])
+			break
+		}
+	}
+	for k := 0; k < len(bindTimes) && k < len(modelOffs); k++ {
+		if lb := runStart.Add(modelOffs[k]); bindTimes[k].Before(lb) {
+			fail("too-early", "instance #%d was created %v after the start of the run; the profile releases it at +%v", k, bindTimes[k].Sub(runStart), modelOffs[k])
 			break
 		}
 	}
